@@ -643,6 +643,25 @@ class CallMixin:
             self.emit("write", node, how="setattr_call", target=args[0], attr=args[1], value=args[2])
         return Const(None)
 
+    def x_reversed(self, args: List[V], kwargs: Dict[str, V], node: Any) -> Optional[V]:
+        x = self._unwrap1(args[0]) if args else None
+        if isinstance(x, (ListV, TupleV)) and x.concrete():
+            return ListV(list(reversed(x.items)))          # consumed by iteration only: a list stands for the iterator
+        if x is not None:
+            t = Term("reversed", (x,), kind="iterator", node=node)
+            t.elem_kind = self._elem_kind(x)  # type: ignore
+            return t
+        return None
+
+    def x_collections_defaultdict(self, args: List[V], kwargs: Dict[str, V], node: Any) -> Optional[V]:
+        """defaultdict(list / dict / set / int): an (initially empty) table whose missing keys are created on access."""
+        if len(args) == 1 and isinstance(args[0], Ext) and args[0].name in ("builtins.list", "builtins.dict", "builtins.set", "builtins.int") \
+                and not kwargs:
+            d = DictV([])
+            d.default_factory = args[0].name.split(".")[1]  # type: ignore
+            return d
+        return None
+
     def x_map(self, args: List[V], kwargs: Dict[str, V], node: Any) -> Optional[V]:
         return Term("map", tuple(args), kind="iterator", node=node)
 
@@ -715,6 +734,14 @@ class CallMixin:
                 return Const(None)
             if attr == "copy":
                 return DictV(list(recv.items))
+            if attr == "setdefault" and args:
+                v = recv.lookup(args[0])
+                if v is not None:
+                    return v
+                if recv.concrete() and all(self._equal(k, args[0]) is False for k, _ in recv.pairs()):
+                    dv = args[1] if len(args) > 1 else Const(None)
+                    recv.store(args[0], dv)
+                    return dv
         if isinstance(recv, SetV):
             if attr == "add" and args:
                 recv.items.append(args[0])
